@@ -88,6 +88,10 @@ func ToCatalog(rows []any, ident string, identRight string, joinExpr sqlparser.E
 			}
 			// length-prefixed, so that ("a-", "b") and ("a", "-b") are different keys
 			text := compare.Text(reader)
+			if number, ok := reader.(float64); ok && number == 0 {
+				// -0 (a JSON document can hold it) and 0 are the same number and the same key
+				text = "0"
+			}
 			buffer.WriteString(fmt.Sprintf("%d:%s-", len(text), text))
 			if reader != nil {
 				if hashedTable.keyTypes[i] == nil {
